@@ -10,8 +10,18 @@ import vlib
 ov = vlib.make_overlay("default")
 hroot = os.path.join(vlib.VERIF, "harness")
 ok = True
+import checks
+for h in sorted(checks.ENGB):
+    try:
+        _, t = checks.engb_build(h)
+        print("instrumented + built %s in %.1fs" % (h, t))
+    except vlib.Infra as e:
+        ok = False
+        print("BUILD FAILED", h, e)
 for d in sorted(os.listdir(hroot)):
     p = os.path.join(hroot, d)
+    if d in checks.ENGB:
+        continue
     if os.path.isdir(p) and any(open(os.path.join(p, f)).read().find("package main") >= 0 for f in os.listdir(p) if f.endswith(".go")):
         try:
             _, t = vlib.build(d, overlay=ov)
